@@ -267,6 +267,11 @@ def _segments(h, w):
     return pts, segs
 
 
+def _sk(sg):
+    """space-free key of an unordered pair of lattice points / cells"""
+    return "-".join("%d,%d" % p for p in sorted(sg))
+
+
 def _corners(c):
     y, x = c
     return {(y, x), (y, x + 1), (y + 1, x), (y + 1, x + 1)}
@@ -307,7 +312,7 @@ def check_frame(ctx, tag, f, h, w, anchor=None, depth=0):
     if anchor is not None:
         for sg in segs:
             if here[sg] is not anchor[sg]:
-                return bad("anchor:%s" % sorted(sg), "variable moved to another segment", segment=sorted(sg))
+                return bad("anchor:%s" % _sk(sg), "variable moved to another segment", segment=sorted(sg))
     var = here
 
     def name(v):
@@ -426,7 +431,7 @@ def check_inner(ctx, tag, i, H, W, anchor=None, depth=0):
     if anchor is not None:
         for b in borders:
             if here[b] is not anchor[b]:
-                return bad("dual_swaps:%s" % sorted(b), "the border between two cells of the dual is not the variable of the primal segment joining them",
+                return bad("dual_swaps:%s" % _sk(b), "the border between two cells of the dual is not the variable of the primal segment joining them",
                            cells=sorted(b), expected=getattr(anchor[b], "id", None), got=getattr(here[b], "id", None))
     it = vlib.guarded(lambda: list(iter(i)))
     if it[0] != "ok" or not _same(it[1], here.values()):
